@@ -41,6 +41,15 @@ inline Params params(int model, long mp) {
     for (int i = 0; i < 2; i++) { p.t[i] = g(2, 12) * (r.pct(50) ? -1 : 1); }
     p.J = g(1, 4); p.h = g(1, 5);
     if (mp == 0) { for (int i = 0; i < 3; i++) { p.U[i] = 1.0; p.eps[i] = -0.5; } p.t[0] = p.t[1] = -1.0; p.J = 0.25; p.h = 0.25; } // the textbook half-filled case
+    // special corners of parameter space (exact and near degeneracies are where tolerance-based term merging gets interesting)
+    switch (mp % 16) {
+        case 1: p.U[1] = p.U[2] = p.U[0]; p.eps[1] = p.eps[2] = p.eps[0]; break;          // identical sites: exact degeneracies between blocks
+        case 2: p.U[0] = p.U[1] = p.U[2] = 0; break;                                        // non-interacting
+        case 3: p.t[0] = p.t[1] = std::pow(10.0, -(5 + (int)((mp / 16) % 6))); break;       // almost decoupled sites: level splittings of 1e-5 .. 1e-10
+        case 4: p.h = std::pow(10.0, -(5 + (int)((mp / 16) % 6))); break;                   // tiny magnetic field
+        case 5: p.J = 0; break;                                                             // density-density multi-orbital interaction
+        default: break;
+    }
     return p;
 }
 
